@@ -13,7 +13,8 @@ CONSTANTS
   GenNoFaults = FALSE
   GenHold = 0
   MaxPhantom = 2
+  AddrKinds = {"real"}
 SPECIFICATION FairSpec
-INVARIANTS TypeOK SlotRange CapacityHonoured ReleasedAtMostOnce ReleasedAtEnd NoEarlyRelease RetNeverBlocks CounterMatches ReportedOK RelayPolicy FullCapacityAgain
+INVARIANTS TypeOK SlotRange CapacityHonoured ReleasedAtMostOnce ReleasedAtEnd NoEarlyRelease RetNeverBlocks CounterMatches ReportedOK RelayPolicy FullCapacityAgain ToldAddrRight
 PROPERTY PollsAgain
 CHECK_DEADLOCK TRUE
